@@ -3,6 +3,7 @@ import Secp.Proofs.DecodeTies
 import Secp.Proofs.ElementApiTiesConstr
 import Secp.Proofs.ElementCodecTies
 import Secp.Proofs.BytesTies
+import Secp.Proofs.MiscTies
 /-!
 # C04 — element encodings are canonical SEC1 and round-trip through Decode
 
@@ -61,6 +62,15 @@ theorem encode_wrappers_tied (e x : Pt L4) (a : L4) :
     GenElementCodec.element_marshalBinary DecodeTies.limbBytes Hand.limbOps e = some (Hand.ElementL.encode e, none) ∧
     GenFieldBytes.element_bytes a = some (DecodeTies.limbBytes.bytes a) :=
   ⟨ElementCodecTies.hex_tie e, ElementCodecTies.marshal_tie e, BytesTies.fp_bytes a⟩
+
+/-- the group-level `Base()`, `NewElement()` and the constants of `group.go` (`Ciphersuite`, `ScalarLength`, `ElementLength`,
+`Order`), regenerated on every run, are the model's -/
+theorem group_constants_regenerated :
+    GenMisc.base Hand.limbOps = some Hand.ElementL.base ∧
+    GenMisc.newElement Hand.limbOps = some (Hand.Element.identity Hand.limbOps) ∧
+    GenMisc.ciphersuite = some Hand.Group.ciphersuite ∧ GenMisc.scalarLength = some Hand.Group.scalarLength ∧
+    GenMisc.elementLength = some Hand.Group.elementLength ∧ GenMisc.order = some Hand.Group.order :=
+  ⟨MiscTies.base_tie, MiscTies.newElement_tie _, MiscTies.consts_tie⟩
 
 /-- `Base()` as regenerated from `element.go` on this run is the model's base point, a valid element whose encoding is the
 SEC1 generator -/
